@@ -171,3 +171,32 @@ func interleave(muts []string, obs []string) []string {
 	}
 	return out
 }
+
+// bulkOps builds a fill / partial drain / refill / full drain run that crosses the usual capacity thresholds
+// of slice- and array-backed containers (64, 128, 256, 512, 1024): push n distinct-ish values (zero values
+// included), pop down to n/4 - 1, push a few again, pop everything, observing after every operation.
+func bulkOps(push func(i int) string, pop string, obs []string, n int) []string {
+	var ops []string
+	add := func(op string) { ops = append(ops, op); ops = append(ops, obs...) }
+	for i := 0; i < n; i++ {
+		add(push(i))
+	}
+	for i := 0; i < n-n/4+1; i++ {
+		add(pop)
+	}
+	for i := 0; i < 5; i++ {
+		add(push(n + i))
+	}
+	for i := 0; i < n/4+8; i++ {
+		add(pop)
+	}
+	return ops
+}
+
+// bulkSizes are the fill levels of the bulk runs (just above the power-of-two growth steps).
+func bulkSizes(thorough bool) []int {
+	if thorough {
+		return []int{33, 65, 129, 130, 257, 300, 513, 1025, 2049, 4100}
+	}
+	return []int{65, 129, 257, 300, 1025}
+}
